@@ -32,6 +32,8 @@ def _resolve_name(prog, module, name, depth=0):
             return ci.assigns[rest], module
     if head in module.imports:
         target = module.imports[head]
+        if rest and target in prog.classes and rest in prog.classes[target].assigns:
+            return prog.classes[target].assigns[rest], prog.classes[target].module
         if rest:
             m2 = prog.modules.get(target)
             if m2 is not None:
